@@ -414,6 +414,14 @@ func runEDrop(c *Ctx, r *Report, rels []string, min int) {
 			continue
 		}
 		if why, ok := frozenDrops[s.Key]; ok {
+			// rows whose reason is "dimensions are >= 1: ..." are re-checked: both size arguments of the call must be
+			// provably positive at the call (dominating tests on the SSA form)
+			if strings.HasPrefix(why, "dimensions are >= 1: a preceding guard") {
+				if bad := positiveArgsAt(c, s); bad != "" {
+					r.Fail("E-DROP", s.Key, c.pos(s.Pos), "violation", "the dropped error rests on \""+why+"\", but "+bad)
+					continue
+				}
+			}
 			classes["c"]++
 			r.Pass("E-DROP", s.Key, c.pos(s.Pos), "c: "+why)
 			continue
@@ -496,4 +504,32 @@ func liveRefs(refs *[]ssa.Instruction) int {
 		}
 	}
 	return n
+}
+
+// positiveArgsAt: the first two arguments of the dropped call are provably >= 1 where it is made.
+func positiveArgsAt(c *Ctx, s dropSite) string {
+	fn, _ := s.Pkg.TypesInfo.Defs[s.Fd.Name].(*types.Func)
+	if fn == nil {
+		return "the enclosing function was not found in the SSA program"
+	}
+	f := c.Prog.FuncValue(fn)
+	if f == nil {
+		return "the enclosing function was not found in the SSA program"
+	}
+	for _, b := range f.Blocks {
+		for _, in := range b.Instrs {
+			call, ok := in.(*ssa.Call)
+			if !ok || call.Pos() != s.Call.Lparen || len(call.Call.Args) < 2 {
+				continue
+			}
+			facts := intFactsAt(b)
+			for i := 0; i < 2; i++ {
+				if !provablyPositive(call.Call.Args[i], facts, 0) {
+					return fmt.Sprintf("argument %d is not kept positive by a dominating test", i+1)
+				}
+			}
+			return ""
+		}
+	}
+	return "the call was not found in the SSA form"
 }
